@@ -13,6 +13,7 @@ RULE = ('Hypothesis histories of 1-14 add_interaction / add_interactions_from / 
         'its pair; distinct = hash of the concrete call list.')
 ASSUMPTIONS = ['vanishing times satisfy e > t (documented meaning); node ids are hashable, non-None, not float/bool',
                'timestamps are Python ints from 7 bases (0, 1, -7, 1e3, -1e6, 1e9) with offsets 0..~14']
+TECHNIQUE = 'model-based PBT: Hypothesis call histories run in lock step against a reference model (presence = union of spans); exhaustive single-pair histories in the thorough tier'
 BUDGET = {'quick': {'cases': 24000, 'seconds': 40}, 'thorough': {'cases': 400000, 'seconds': 540}}
 
 
